@@ -1,7 +1,7 @@
 """bin/check configuration of property C17 (see bin/props.py)."""
 
 PROP = {'lean': 'MpsProps.C17',
- 'theorems': ['Mps.C17.lifecycle',
+ 'theorems': ['Mps.C17.lifecycle', 'Mps.C17.replay_order_alternatives_are_the_model',
               'Mps.C17.close_at_most_once',
               'Mps.C17.closed_iff_ended',
               'Mps.C17.result_xor_error',
